@@ -2,6 +2,7 @@
 namespace Larking.Expected.C13
 
 def conds_streamGRPC_RecvMsg : List String := [
+   "func (*streamGRPC) RecvMsg(m interface{}) error",
    "defer s.wg.Done()",
    "if err := s.isDone(); err != nil",
    "return err",
@@ -66,6 +67,7 @@ def stmts_streamGRPC_RecvMsg : List String := [
   ]
 
 def conds_streamGRPC_SendMsg : List String := [
+   "func (*streamGRPC) SendMsg(m interface{}) error",
    "defer s.wg.Done()",
    "if err := s.isDone(); err != nil",
    "return err",
@@ -131,6 +133,7 @@ def stmts_streamGRPC_SendMsg : List String := [
   ]
 
 def conds_streamHTTP_readMsg : List String := [
+   "func (*streamHTTP) readMsg(c Codec, b []byte) (int, []byte, error)",
    "if s.rEOF",
    "return s.recvCount, nil, io.EOF",
    "if s.method.desc.IsStreamingClient()",
@@ -160,6 +163,7 @@ def stmts_streamHTTP_readMsg : List String := [
   ]
 
 def conds_streamHTTP_decodeRequestArgs : List String := [
+   "func (*streamHTTP) decodeRequestArgs(args proto.Message) (int, error)",
    "defer func() { if cap(b) < s.opts.maxReceiveMessageSize { *bytes = b bytesPool.Put(bytes) } }()",
    "if cap(b) < s.opts.maxReceiveMessageSize",
    "if err != nil",
@@ -201,6 +205,7 @@ def stmts_streamHTTP_decodeRequestArgs : List String := [
   ]
 
 def conds_streamHTTP_SendMsg : List String := [
+   "func (*streamHTTP) SendMsg(m interface{}) error",
    "if err != nil",
    "return err",
    "if err != nil",
@@ -246,6 +251,7 @@ def stmts_streamHTTP_SendMsg : List String := [
   ]
 
 def conds_gzipReader_Read : List String := [
+   "func (*gzipReader) Read(p []byte) (n int, err error)",
    "if z.zr == nil",
    "return 0, io.EOF",
    "if err == io.EOF",
@@ -259,6 +265,7 @@ def stmts_gzipReader_Read : List String := [
   ]
 
 def conds_gzipWriter_Close : List String := [
+   "func (*gzipWriter) Close() error",
    "defer z.pool.Put(z)",
    "return z.Writer.Close()"
   ]
@@ -268,6 +275,7 @@ def stmts_gzipWriter_Close : List String := [
   ]
 
 def conds_CompressorGzip_Compress : List String := [
+   "func (*CompressorGzip) Compress(w io.Writer) (io.WriteCloser, error)",
    "if !ok",
    "if c.Level != nil",
    "if err != nil",
@@ -285,6 +293,7 @@ def stmts_CompressorGzip_Compress : List String := [
   ]
 
 def conds_CompressorGzip_Decompress : List String := [
+   "func (*CompressorGzip) Decompress(r io.Reader) (io.Reader, error)",
    "if !ok",
    "if err != nil",
    "return nil, err",
@@ -302,6 +311,7 @@ def stmts_CompressorGzip_Decompress : List String := [
   ]
 
 def conds_streamGRPC_compress : List String := [
+   "func (*streamGRPC) compress(dst *bytes.Buffer, b []byte) error",
    "if err != nil",
    "return err",
    "defer w.Close()",
@@ -317,6 +327,7 @@ def stmts_streamGRPC_compress : List String := [
   ]
 
 def conds_streamGRPC_decompress : List String := [
+   "func (*streamGRPC) decompress(dst *bytes.Buffer, b []byte) error",
    "if err != nil",
    "return err",
    "if _, err := dst.ReadFrom(io.LimitReader(r, max+1)); err != nil",
@@ -334,6 +345,7 @@ def stmts_streamGRPC_decompress : List String := [
   ]
 
 def conds_createConnHandler : List String := [
+   "func createConnHandler( cc *grpc.ClientConn, sd protoreflect.ServiceDescriptor, md protoreflect.MethodDescriptor, ) *handler",
    "if isClientStream || isServerStream",
    "if inErr != nil && !(inErr == io.EOF && sd.ClientStreams)",
    "return inErr",
